@@ -687,7 +687,7 @@ def rule_cell_rmw(ctx):
                               "which can run user code (destructors pin, unpin, take handles, flush): the update of whatever "
                               "that code did to the counter is lost" % (cell, sorted({q.target.split("::")[-1] for q in between})),
                               e.loc())
-    r.require(n, 5, "read-modify-write pairs on Local counters")
+    r.require(n, 3, "read-modify-write pairs on Local counters")
     return r
 
 
